@@ -1,6 +1,7 @@
 import Pi2.DeserializeThm
 import Pi2.Props.C05
 import Pi2.SerTie
+import Pi2.DeserTie
 /-!
 # C14 — binary round trip: deserialising a serialised proof replays it
 
@@ -59,5 +60,37 @@ theorem serializer_bytes_tied (n : Nat) (s : PySt) (c : Call) (is : List Instr)
     (h : PySt.emit1 n s c = some (some is)) :
     Gen.Ser.translated = true ∧ ∃ memIdx, encode is = SerTie.bytesOfCall s memIdx c :=
   ⟨SerTie.translated, SerTie.emit_is_serializer n s c is h⟩
+
+
+/-- **the deserialiser as written**: `deserialize_instructions` of `deserialize.py` — translated branch by branch, statement
+by statement on every run (`Pi2/Gen/Deserializer.lean`: operand bytes read, the interpreter method called, the stack /
+memory positions its arguments are taken from, the key order of `Instantiate`, the phase dispatch of `Publish`) — run
+against the tracker is the model `PySt.deserialize` (`decode`, then `callOfInstr` + `track1` per instruction), on every
+decodable stream whose `Instantiate` keys are pairwise different (what a `dict` serialises to) and on which the
+deserialiser's own claim pre-check in the proof phase (`claims[0].pattern != theorem.conclusion`, the same `==` with
+swapped operands) agrees with the tracker's -/
+theorem deserializer_text_is_the_model (n : Nat) (s : PySt) (bs : List Nat) (is : List Instr) (hd : decode bs = some is)
+    (hk : DeserTie.NodupKeys is) (hp : DeserTie.PrecheckAlong n s is) :
+    Gen.Deser.translated = true ∧ Gen.Deser.deserialize n s bs = PySt.deserialize n s bs :=
+  ⟨DeserTie.translated, DeserTie.deserialize_tie n s bs is hd hk hp⟩
+
+/-- in the gamma and claim phases there is no pre-check -/
+theorem deserializer_text_is_the_model_gamma_claim (n : Nat) (s : PySt) (bs : List Nat) (is : List Instr)
+    (hd : decode bs = some is) (hk : DeserTie.NodupKeys is) (hph : s.phase ≠ .proof) :
+    Gen.Deser.deserialize n s bs = PySt.deserialize n s bs :=
+  DeserTie.deserialize_tie_gamma_claim n s bs is hd hk hph
+
+/-- an undecodable stream is an error in the code as written, too (never skipped) -/
+theorem deserializer_text_undecodable (n : Nat) (s : PySt) (bs : List Nat) (hd : decode bs = none) :
+    PySt.deserialize n s bs = some none ∧
+    (Gen.Deser.deserialize n s bs = some none ∨ Gen.Deser.deserialize n s bs = none) :=
+  DeserTie.deserialize_undecodable n s bs hd
+
+/-- the `NodupKeys` hypothesis is needed: on a hand-crafted stream that repeats an `Instantiate` key, Python's `dict`
+merges the two entries and takes one plug, the model takes two (the serialiser never writes such a stream) -/
+theorem deserializer_duplicate_keys_outside_model :
+    ((Gen.Deser.deserialize 5 (PySt.init []) DeserTie.dupKeys).bind id).map (·.stack.length) = some 2 ∧
+    ((PySt.deserialize 5 (PySt.init []) DeserTie.dupKeys).bind id).map (·.stack.length) = some 1 :=
+  ⟨DeserTie.model_differs_on_duplicate_keys.1, DeserTie.model_differs_on_duplicate_keys.2.1⟩
 
 end C14
